@@ -72,7 +72,16 @@ SPEC = [
      'consts': ['BITMAP_NA', 'BITMAP_INDICATOR', 'BITMAP_WAITING_FOR_BIT', 'BITMAP_BIT_COUNTING',
                 'QA_INFO_NA', 'QA_INFO_WAITING', 'QA_INFO_PROCESSING']},
     {'module': 'utils', 'file': 'pybufrkit/utils.py',
-     'consts': ['TEXT_SECTION_HEADER', 'TEXT_SUBSET_HEADER']},
+     'consts': ['TEXT_SECTION_HEADER', 'TEXT_SUBSET_HEADER'],
+     'funcs': {'fixed_width_repr_of_int': {'params': {'value': 'int', 'width': 'int', 'pad_left': 'bool'}}}},
+    {'module': 'descriptors', 'file': 'pybufrkit/descriptors.py',
+     'classes': {
+         'Descriptor': {'attrs': {'id': 'int'}, 'methods': {'F': {}, 'X': {}, 'Y': {}}},
+         'ReplicationDescriptor': {'attrs': {'id': 'int', 'members': 'list[obj]'},
+                                   'methods': {'n_items': {}, 'n_members': {}}},
+         'FixedReplicationDescriptor': {'attrs': {'id': 'int'}, 'methods': {'n_repeats': {}}},
+         'OperatorDescriptor': {'attrs': {'id': 'int'}, 'methods': {'operator_code': {}, 'operand_value': {}}},
+     }},
     {'module': 'script', 'file': 'pybufrkit/script.py',
      'consts': ['STATE_IDLE', 'STATE_EMBEDDED_QUERY', 'STATE_SINGLE_QUOTE', 'STATE_DOUBLE_QUOTE', 'STATE_COMMENT',
                 'DATA_VALUES_NEST_LEVEL_0', 'DATA_VALUES_NEST_LEVEL_1', 'DATA_VALUES_NEST_LEVEL_2',
